@@ -6,6 +6,7 @@ package rw
 import (
 	"bytes"
 	"io"
+	"net/http"
 	"time"
 
 	"github.com/anishathalye/porcupine"
@@ -37,9 +38,10 @@ const (
 	opCopy         // io.Copy(w, reader): uses a ReadFrom fast path if the writer has one
 	opWriteString  // io.WriteString(w, s): uses a WriteString fast path if the writer has one
 	opBeforeNested // a hook that registers another hook when it runs
+	opHijack       // Hijack() through the wrapper (underlying writer may or may not support it)
 )
 
-var opNames = []string{"WriteHeader", "Write", "Flush", "Before", "Read", "Write(empty)", "io.Copy", "io.WriteString", "Before(nesting)"}
+var opNames = []string{"WriteHeader", "Write", "Flush", "Before", "Read", "Write(empty)", "io.Copy", "io.WriteString", "Before(nesting)", "Hijack"}
 
 type op struct {
 	Kind      int
@@ -131,6 +133,9 @@ func (Engine) Run(t *tape.Tape, o eng.Opts) *eng.Result {
 
 	method := methods[gen.Weighted(4, 3, 2, 1, 1, 1, 1, 1, 1)]
 	flusher := gen.Intn(2) == 1
+	readerFrom := gen.Intn(3) == 1
+	hijacker := gen.Intn(3) == 1
+	bulk := sw.Intn(400) == 7 // one history in 400 pushes more than 2 GiB through the writer
 	faultFree := fg.Chance(350)
 	withObserver := sw.Intn(3) == 1
 	nops := 1 + gen.Intn(25)
@@ -141,7 +146,7 @@ func (Engine) Run(t *tape.Tape, o eng.Opts) *eng.Result {
 	hookID := 0
 	for i := 0; i < nops; i++ {
 		gen.Begin("op")
-		k := gen.Weighted(5, 6, 3, 4, 3, 1, 2, 2, 1)
+		k := gen.Weighted(5, 6, 3, 4, 3, 1, 2, 2, 1, 1)
 		x := op{Kind: k}
 		switch k {
 		case opWriteHeader:
@@ -190,7 +195,7 @@ func (Engine) Run(t *tape.Tape, o eng.Opts) *eng.Result {
 		fg.End()
 	}
 	spy := world.NewSpy(q)
-	w := flamego.NewResponseWriter(method, spy.Writer(flusher))
+	w := flamego.NewResponseWriter(method, spy.WriterFacets(flusher, readerFrom, hijacker))
 
 	var hooks []hookRun
 	recs := make([]opRec, len(ops))
@@ -228,7 +233,11 @@ func (Engine) Run(t *tape.Tape, o eng.Opts) *eng.Result {
 					for j := range b {
 						b[j] = byte('A' + (i+j)%26)
 					}
-					n, err := io.Copy(w, bytes.NewReader(b))
+					var src io.Reader = bytes.NewReader(b) // an io.WriterTo: io.Copy lets it call Write
+					if i%2 == 0 {
+						src = struct{ io.Reader }{src} // a plain reader: io.Copy prefers the destination's ReadFrom
+					}
+					n, err := io.Copy(w, src)
 					r.n, r.err = int(n), err != nil
 				case opWriteString:
 					b := make([]byte, x.N)
@@ -237,6 +246,8 @@ func (Engine) Run(t *tape.Tape, o eng.Opts) *eng.Result {
 					}
 					n, err := io.WriteString(w, string(b))
 					r.n, r.err = n, err != nil
+				case opHijack:
+					_, _, _ = w.(http.Hijacker).Hijack()
 				case opBeforeNested:
 					id := x.HookID
 					w.Before(func(rw flamego.ResponseWriter) {
@@ -276,6 +287,10 @@ func (Engine) Run(t *tape.Tape, o eng.Opts) *eng.Result {
 				q.Note("FAIL size-truth: after op " + itoa(i) + " Size()=" + itoa(w.Size()) + " but " + itoa(len(spy.Body)) + " body bytes were forwarded")
 			}
 		}
+	}
+	bulkWrites := 0
+	if bulk {
+		withObserver = false
 	}
 	var obs []obsRec
 	nobs := 0
@@ -326,6 +341,25 @@ func (Engine) Run(t *tape.Tape, o eng.Opts) *eng.Result {
 			defer func() { recover() }()
 			writer()
 		}()
+		if bulk && method != "HEAD" {
+			// more than 2 GiB through the writer, counted but not stored by the spy
+			spy.CountOnly = true
+			chunk := make([]byte, 1<<20)
+			func() {
+				defer func() { recover() }() // a pending hook of the history may panic on the first write
+				for i := 0; i < 2100; i++ {
+					n, err := w.Write(chunk)
+					if err != nil || n != len(chunk) {
+						break
+					}
+					bulkWrites++
+				}
+			}()
+			if got, want := int64(w.Size()), int64(len(spy.Body))+spy.Count; got != want {
+				q.Note("FAIL size-truth: after " + itoa(bulkWrites) + " further writes of 1 MiB Size() reports " + itoa(int(got)) + " but " + itoa(int(want)) + " body bytes were forwarded")
+			}
+			res.Probes["bulk_histories_over_2GiB"]++
+		}
 		sched.SetSolo(nil)
 		res.Steps = q.Local.Idx
 	}
@@ -438,6 +472,16 @@ func (Engine) Run(t *tape.Tape, o eng.Opts) *eng.Result {
 				viol("hooks-once", "BeforeFunc "+itoa(id)+" registered before the first write never ran although status "+itoa(spy.Code)+" was sent")
 			}
 		}
+		// a hook registered by a running hook was registered before the status reached the
+		// underlying writer too: it runs (once) before that status
+		for _, h := range hooks {
+			if h.nested {
+				continue
+			}
+			if x := ops[regAt[h.id]]; x.Kind == opBeforeNested && h.during <= trig && seenHook[h.id+1] == 0 {
+				viol("hooks-once", "BeforeFunc "+itoa(h.id+1)+", registered by BeforeFunc "+itoa(h.id)+" while the hooks were running, never ran although status "+itoa(spy.Code)+" was sent afterwards")
+			}
+		}
 		if trig >= 0 {
 			for _, h := range hooks {
 				if h.during > trig && regAt[h.id] < trig {
@@ -499,6 +543,12 @@ func (Engine) Run(t *tape.Tape, o eng.Opts) *eng.Result {
 	mixin(eng.Hash64(0, method))
 	if flusher {
 		mixin(7)
+	}
+	if readerFrom {
+		mixin(11)
+	}
+	if hijacker {
+		mixin(13)
 	}
 	trigger := false
 	for i, x := range ops {
